@@ -34,6 +34,8 @@ type e8row struct {
 	lenEqOpaque bool
 	havoc   bool
 	rangeOnce bool
+	rangeMax  int
+	maxBools  int
 	opaquePkg map[*types.Package]bool
 	opaque  map[*types.Func]bool
 	spec    func(a *e8assign, names *e8names, out *e8out) string
@@ -246,7 +248,7 @@ restart:
 		}()
 		// discovery
 		col := &e8collector{scalars: map[string]bool{}, bools: map[string]bool{}}
-		run(&e8interp{p: p, collect: col, lenEqOpaque: row.lenEqOpaque, opaque: row.opaque, havoc: row.havoc, opaquePkg: row.opaquePkg, rangeOnce: row.rangeOnce})
+		run(&e8interp{p: p, collect: col, lenEqOpaque: row.lenEqOpaque, opaque: row.opaque, havoc: row.havoc, opaquePkg: row.opaquePkg, rangeOnce: row.rangeOnce, rangeMax: row.rangeMax})
 		for _, a := range row.atoms {
 			col.scalars[a] = true
 		}
@@ -282,7 +284,11 @@ restart:
 				e8fail("%d atoms in one independence group: enumeration too large", len(groups[g]))
 			}
 		}
-		if len(names.bools) > 14 {
+		maxBools := 14
+		if row.maxBools > 0 {
+			maxBools = row.maxBools
+		}
+		if len(names.bools) > maxBools {
 			e8fail("too many opaque booleans (%d)", len(names.bools))
 		}
 		a := &e8assign{rank: map[string]int{}, bools: map[string]bool{}, group: row.group}
@@ -315,7 +321,7 @@ restart:
 				return
 			}
 			evaluated++
-			in := &e8interp{p: p, a: a, lenEqOpaque: row.lenEqOpaque, opaque: row.opaque, havoc: row.havoc, opaquePkg: row.opaquePkg, rangeOnce: row.rangeOnce}
+			in := &e8interp{p: p, a: a, lenEqOpaque: row.lenEqOpaque, opaque: row.opaque, havoc: row.havoc, opaquePkg: row.opaquePkg, rangeOnce: row.rangeOnce, rangeMax: row.rangeMax}
 			out := run(in)
 			if out != nil {
 				out.in = in
@@ -359,8 +365,26 @@ restart:
 				for i, n := range ns {
 					a.rank[n] = r[i]
 				}
-				if row.pre != nil && !row.pre(a, names) {
-					return // prune: the precondition already fails on the atoms ranked so far
+				if row.pre != nil {
+					// the booleans are not assigned yet at this stage: do not let a precondition see stale ones
+					saved := a.bools
+					a.bools = map[string]bool{}
+					ok := func() (res bool) {
+						defer func() {
+							if rec := recover(); rec != nil {
+								if _, isU := rec.(e8unknown); isU {
+									res = true // the precondition needs a boolean: decided later, on the full assignment
+									return
+								}
+								panic(rec)
+							}
+						}()
+						return row.pre(a, names)
+					}()
+					a.bools = saved
+					if !ok {
+						return // prune: the precondition already fails on the atoms ranked so far
+					}
 				}
 				recGroups(gi + 1)
 			})
